@@ -21,6 +21,7 @@ import numpy as _np
 import z3
 
 from . import sym
+from .qarr import QArr, QIndices
 from .sym import (EngineError, SymBool, SymInt, SymReal, ctx, is_sym, lift_real,
                   sym_exp, sym_log, sym_pow, sym_round, sym_sqrt, to_z3_bool)
 
@@ -467,11 +468,15 @@ class _NP:
 
     # -- construction ----------------------------------------------------------------
     def array(self, x, dtype=None, copy=True, **k):
+        if isinstance(x, QArr):
+            return x.copy()
         if dtype in (int, bool, _np.int64, _np.bool_, str) and not _has_sym(x):
             return _np.array(x, dtype=dtype).view(SArr)
         return _to_arr(x, copy=True)
 
     def asarray(self, x, dtype=None, **k):
+        if isinstance(x, QArr):
+            return x
         if dtype in (int, bool, _np.int64, _np.bool_) and not _has_sym(x):
             return _np.asarray(x, dtype=dtype).view(SArr)
         return _to_arr(x)
@@ -541,6 +546,8 @@ class _NP:
         return f(x)
 
     def abs(self, x):
+        if isinstance(x, QArr):
+            return QArr(x.n, (lambda f: lambda i: builtins.abs(f(i)))(x.f), 'real')
         return self._ew1(builtins.abs, x)
 
     absolute = abs
@@ -558,6 +565,8 @@ class _NP:
         return self._ew1(lambda v: v * v, x)
 
     def isnan(self, x):
+        if isinstance(x, QArr):
+            return QArr(x.n, lambda i: SymBool(z3.BoolVal(False)), 'bool')
         r = self._ew1(_isnan1, x)
         return r.astype(bool).view(SArr) if isinstance(r, _np.ndarray) else bool(r)
 
@@ -589,6 +598,11 @@ class _NP:
         return self.all(self.isclose(a, b, rtol, atol, equal_nan))
 
     def where(self, cond, a=None, b=None):
+        if isinstance(cond, QArr):
+            af = a.f if isinstance(a, QArr) else (lambda i: a)
+            bf = b.f if isinstance(b, QArr) else (lambda i: b)
+            cf = cond.f
+            return QArr(cond.n, lambda i: sym.ite(cf(i) if isinstance(cf(i), SymBool) else SymBool(to_z3_bool(cf(i))), af(i), bf(i)), 'real')
         if a is None and b is None:
             m = concretise_mask(_to_arr(cond))
             return tuple(x.view(SArr) for x in _np.where(m))
@@ -651,6 +665,8 @@ class _NP:
 
     # -- reductions --------------------------------------------------------------------
     def any(self, x, axis=None):
+        if isinstance(x, QArr):
+            return x.any()
         a = _np.asarray(_to_arr(x))
         if a.dtype != object:
             return _np.any(a, axis=axis)
@@ -660,6 +676,8 @@ class _NP:
         return sym.Or(*items) if items else False
 
     def all(self, x, axis=None):
+        if isinstance(x, QArr):
+            return x.all()
         a = _np.asarray(_to_arr(x))
         if a.dtype != object:
             return _np.all(a, axis=axis)
@@ -669,11 +687,15 @@ class _NP:
         return sym.And(*items) if items else True
 
     def min(self, x, axis=None, **k):
+        if isinstance(x, QArr):
+            return x.min()
         return _to_arr(x).min(axis=axis)
 
     amin = min
 
     def max(self, x, axis=None, **k):
+        if isinstance(x, QArr):
+            return x.max()
         return _to_arr(x).max(axis=axis)
 
     amax = max
@@ -696,6 +718,8 @@ class _NP:
         return _to_arr(x).sum(axis=axis)
 
     def cumsum(self, x, axis=None, **k):
+        if isinstance(x, QArr):
+            return x.cumsum()
         return _to_arr(x).cumsum(axis=axis)
 
     def diff(self, x, n=1, axis=-1):
@@ -733,6 +757,8 @@ class _NP:
 
     # -- masks / indices ----------------------------------------------------------------
     def flatnonzero(self, m):
+        if isinstance(m, QArr):
+            return QIndices(m)
         a = _to_arr(m)
         if a.dtype == object:
             a = concretise_mask(a)
@@ -882,6 +908,11 @@ class _NP:
         return _np.append(A, V, axis=axis).view(SArr)
 
     def insert(self, a, idx, v, axis=None):
+        if isinstance(a, QArr):
+            if not (isinstance(idx, int) and idx == 0):
+                raise EngineError('np.insert on a symbolic-length array only at position 0')
+            f = a.f
+            return QArr(a.n + 1, lambda i: sym.ite(SymBool(i == 0), v, f(i - 1)), a.kind)
         A = _np.asarray(_to_arr(a))
         V = _np.asarray(_to_arr(v)) if isinstance(v, (list, tuple, _np.ndarray)) or is_sym(v) else v
         if A.dtype != object and (is_sym(v) or _has_sym(v)):
